@@ -257,6 +257,12 @@ def _parse_args(args: list[str] | None = None) -> tuple[Options, set[str], bool]
     # Re-parse with sentinel defaults to detect which flags were actually supplied.
     # append actions use None as sentinel (argparse creates a list when the flag is used).
     sentinel_parser = argparse.ArgumentParser(add_help=False)
+    # Untracked short options must be declared too: argparse lets short options be
+    # clustered (`-pw 100`, `-ic`), and a cluster starting with an unknown option would
+    # hide the tracked flags behind it.
+    sentinel_parser.add_argument("-o", "--output", type=str)
+    sentinel_parser.add_argument("-p", "--plaintext", action="store_true")
+    sentinel_parser.add_argument("-i", "--inplace", action="store_true")
     sentinel_parser.add_argument("-w", "--width", type=int, default=_SENTINEL)
     sentinel_parser.add_argument("-s", "--semantic", action="store_true", default=_SENTINEL)
     sentinel_parser.add_argument("-c", "--cleanups", action="store_true", default=_SENTINEL)
